@@ -182,3 +182,28 @@ Example C11_replay_with_batches_nonvacuous :
   length (events_of w demo_replay_b_ops) = 15.
 Proof. split; [exact demo_replay_b_pre|exact demo_replay_b_result]. Qed.
 Print Assumptions C11_replaying_events_rebuilds_the_world_with_batches.
+
+(** ** ... components AND relation targets.  The relation target is not part of an event (only
+    the old target is); events arrive after the change, so a listener reads the target from the
+    world it is called in - on a creation event and on every event whose type bits say
+    RelationChanged or TargetChanged, and only then.  The shadow (component set, target) kept
+    this way holds, after every history of creations (with and without target), exchanges (with
+    or without relation argument), Relations.Set, Set, RemoveEntity, registrations and reads,
+    exactly the alive entities with the component sets and targets the world reports: the type
+    bits never miss a change of the target. *)
+From Arche Require Import Proofs.EventReplayT.
+Theorem C11_replay_with_targets : forall ops w A S,
+  R w A -> w_listener w = Some lall -> shadow_t_ok A S -> pre_runT w A ops ->
+  let w' := run w ops in let A' := snd (arun w A ops) in let S' := replay_run w S ops in
+  (forall e, e ∈ as_live A' -> exists m t, assoc_get e S' = Some (m, t) /\ ent_mask w' e = Some m /\ ent_target w' e = Some t) /\
+  (forall e, e ∉ as_live A' -> assoc_get e S' = None).
+Proof. exact replay_t_rebuilds_world. Qed.
+
+Example C11_replay_with_targets_nonvacuous :
+  let w := run (world_init 2 2 64) demo_replay_setup in
+  let A := snd (arun (world_init 2 2 64) a_init demo_replay_setup) in
+  (w_listener w = Some lall /\ pre_runT w A demo_replay_t_ops) /\
+  replay_run w [] demo_replay_t_ops =
+    [(mkE 1 1, (4%N, ezero)); (mkE 2 0, (5%N, ezero)); (mkE 3 0, (6%N, mkE 2 0))].
+Proof. split; [exact demo_replay_t_pre|exact demo_replay_t_result]. Qed.
+Print Assumptions C11_replay_with_targets.
